@@ -57,12 +57,15 @@ impl ClassTable {
 pub type TreeView = Vec<(u8, usize, bool)>;
 
 pub fn tree_view(sut: &Sut) -> TreeView {
-    (0..sut.trees())
-        .map(|t| {
-            let (c, f, r) = sut.alloc.trees.stats_at(TreeId(t));
-            (c.0, f, r)
-        })
-        .collect()
+    crate::common::catch(|| {
+        (0..sut.trees())
+            .map(|t| {
+                let (c, f, r) = sut.alloc.trees.stats_at(TreeId(t));
+                (c.0, f, r)
+            })
+            .collect()
+    })
+    .unwrap_or_default()
 }
 
 /// Evaluate one transition. `m` is updated to the post state.
@@ -191,6 +194,9 @@ fn change_oracle(
     else {
         unreachable!()
     };
+    if before.len() != after.len() || before.len() != m.trees() {
+        return; // a query panicked (reported elsewhere)
+    }
     let changed: Vec<usize> = (0..before.len())
         .filter(|&t| before[t] != after[t])
         .collect();
@@ -334,8 +340,53 @@ fn change_oracle(
     }
 }
 
+const ALL_PROPS: [&str; 23] = [
+    "C01", "C02", "C03", "C04", "C05", "C06", "C07", "C08", "C09", "C10", "C11", "C12", "C13", "C14",
+    "C15", "C16", "C17", "C18", "C19", "C20", "C21", "C22", "C23",
+];
+/// Index of the property the current run decides (violations of panicking queries are
+/// also attributed to it)
+static HOST_IDX: std::sync::atomic::AtomicUsize = std::sync::atomic::AtomicUsize::new(8);
+
+pub fn static_prop(p: &str) -> &'static str {
+    ALL_PROPS.iter().find(|x| **x == p).copied().unwrap_or("C09")
+}
+pub fn set_host_prop(p: &str) {
+    let i = ALL_PROPS.iter().position(|x| *x == p).unwrap_or(8);
+    HOST_IDX.store(i, std::sync::atomic::Ordering::SeqCst);
+}
+pub fn host_prop() -> &'static str {
+    ALL_PROPS[HOST_IDX.load(std::sync::atomic::Ordering::SeqCst)]
+}
+
+/// A panic of the subject inside an oracle query is a verdict, not a machinery error
+pub fn query_panic(msg: &str, what: &str, out: &mut Vec<Violation>) {
+    let sig = crate::common::panic_signature(msg);
+    let host = host_prop();
+    out.push(Violation::new(
+        "C09",
+        format!("panic in a query: {sig}"),
+        format!("{what}: {msg}"),
+    ));
+    if host != "C09" {
+        out.push(Violation::new(
+            host,
+            format!("panic in a query: {sig}"),
+            format!("{what}: {msg}"),
+        ));
+    }
+}
+
 /// State oracles (C04, C14, frame status of C02). Called on quiescent states.
 pub fn state(m: &Model, sut: &Sut, full_frames: bool, out: &mut Vec<Violation>) {
+    let mut v = vec![];
+    if let Err(msg) = crate::common::catch(|| state_raw(m, sut, full_frames, &mut v)) {
+        query_panic(&msg, "state oracle", &mut v);
+    }
+    out.extend(v);
+}
+
+fn state_raw(m: &Model, sut: &Sut, full_frames: bool, out: &mut Vec<Violation>) {
     let a = &sut.alloc;
     let n = m.frames;
     // --- per frame status (C02: failing calls change nothing; C04: per-frame queries)
@@ -501,6 +552,14 @@ pub fn state(m: &Model, sut: &Sut, full_frames: bool, out: &mut Vec<Violation>) 
 
 /// `is_free` of aligned blocks of several orders against the model (C04)
 pub fn state_blocks(m: &Model, sut: &Sut, out: &mut Vec<Violation>) {
+    let mut v = vec![];
+    if let Err(msg) = crate::common::catch(|| state_blocks_raw(m, sut, &mut v)) {
+        query_panic(&msg, "is_free oracle", &mut v);
+    }
+    out.extend(v);
+}
+
+fn state_blocks_raw(m: &Model, sut: &Sut, out: &mut Vec<Violation>) {
     let a = &sut.alloc;
     for order in [3usize, 6, 7, HUGE_ORDER, HUGE_ORDER + 1, TREE_ORDER] {
         if order > TREE_ORDER {
